@@ -60,6 +60,8 @@ func c09Round(c *mon.Ctx, r *mon.Rand) {
 	existing := root.Counter("existing")
 	desc := map[string]interface{}{"cached": cached, "shards": shards, "goroutines": N, "names": nNames, "children": nKids}
 	c.LogCase(fmt.Sprint(desc))
+	stopWatch := c.Watchdog(300*time.Second, "no-progress(deadlock?)", desc)
+	defer stopWatch()
 
 	type got struct {
 		kidScopes []tally.Scope
@@ -309,6 +311,8 @@ func c09Mix(c *mon.Ctx, r *mon.Rand) {
 	test := tally.VerifNewTestScope("t", map[string]string{"a": "b"}, uint(r.Range(1, 4)))
 	desc := map[string]interface{}{"cached": cached, "interval_us": interval.Microseconds()}
 	c.LogCase(fmt.Sprint(desc))
+	stopWatch := c.Watchdog(300*time.Second, "no-progress(deadlock?)", desc)
+	defer stopWatch()
 	W := r.Range(4, 8)
 	var wg sync.WaitGroup
 	var ops int64
